@@ -210,7 +210,11 @@ class Program:
         if U is None:
             return st
         if log is not None:
-            log.append((name, tuple(cl)))
+            if name.endswith(gateset_sig.STRETCH_SUFFIX):
+                # a stretched variant evaluates its parent's unitary on the parent's arguments
+                log.append((name[: -len(gateset_sig.STRETCH_SUFFIX)], tuple(cl[:-1])))
+            else:
+                log.append((name, tuple(cl)))
         k = len(qs)
         if len(set(qs)) != k:
             raise Reject("gate-on-repeated-qubit", leaf.id)
